@@ -1,6 +1,7 @@
 SPECIFICATION Spec
 CONSTANTS
   ElemIgnore = TRUE
+  Shape <- NoShape
   MinVisSet <- Both
   File2Srcs <- TopSrcs
   ClassHeads <- KindHeads
